@@ -221,6 +221,26 @@ fn thread_body(sh: Arc<Shared>, tid: u64, n_ops: usize, seed: u64, replay: serde
     st
 }
 
+/// Is any thread of this process other than the caller in state R (running / runnable)?
+fn any_other_thread_runnable() -> bool {
+    let me = unsafe { libc::syscall(libc::SYS_gettid) } as u64;
+    let Ok(dir) = std::fs::read_dir("/proc/self/task") else { return true };
+    for e in dir.flatten() {
+        let tid: u64 = e.file_name().to_string_lossy().parse().unwrap_or(0);
+        if tid == me {
+            continue;
+        }
+        if let Ok(stat) = std::fs::read_to_string(e.path().join("stat")) {
+            if let Some(rest) = stat.rsplit_once(')') {
+                if rest.1.trim_start().starts_with('R') {
+                    return true;
+                }
+            }
+        }
+    }
+    false
+}
+
 fn process_cpu_s() -> f64 {
     let mut ts = libc::timespec { tv_sec: 0, tv_nsec: 0 };
     unsafe {
@@ -271,7 +291,9 @@ fn one_run(n_threads: usize, n_ops: usize, seed: u64, st: &mut Stats) -> bool {
         if done != last.0 {
             last = (done, cpu, Instant::now());
         } else if last.2.elapsed() > Duration::from_secs(20) {
-            if cpu - last.1 < 0.5 {
+            // blocked = no CPU consumed AND no thread is runnable (a starved process on an overloaded
+            // machine has runnable threads; parked threads are in state S)
+            if cpu - last.1 < 0.5 && !any_other_thread_runnable() {
                 deadlock = true;
                 break;
             }
